@@ -73,6 +73,13 @@ def inner_sem(spec, state, env):
         return issubclass(EXCS[state[1]], EXCS[spec[1]])
 
 
+def _transformed(state):
+    if state[0] == "failure":
+        return ("value", 1)
+    v = state[1] if len(state) > 1 else None
+    return ("value", v + 10 if isinstance(v, int) and not isinstance(v, bool) else "t")
+
+
 def make_deferred(init):
     from twisted.internet import defer
     d = defer.Deferred()
@@ -183,6 +190,8 @@ def x_history(ctx, case):
                 for j, what in pending_cb:
                     if what == "swallow":
                         state = ("value", None)
+                    elif what == "transform":
+                        state = _transformed(state)
                     else:
                         expected_received[j] = state
                 pending_cb = []
@@ -200,6 +209,19 @@ def x_history(ctx, case):
                     pending_cb.append((idx, "record"))
                 else:
                     expected_received.append(state)
+            elif k == "add_transform":
+                # a callback that CHANGES the result: a value v becomes v + 10 (or "t" for non-ints), a failure
+                # is recovered into the value 1.  What a later match sees is the result as it is THEN.
+                def transform(r):
+                    from twisted.python.failure import Failure
+                    if isinstance(r, Failure):
+                        return 1
+                    return r + 10 if isinstance(r, int) and not isinstance(r, bool) else "t"
+                d.addBoth(transform)
+                if state[0] == "unfired":
+                    pending_cb.append((None, "transform"))
+                else:
+                    state = _transformed(state)
             elif k == "extract":
                 try:
                     got = ("value", extract_result(d))
@@ -317,7 +339,7 @@ INITS.append({"state": "failure", "exc": "ValueError", "callbacks_before": 3})
 
 INNER = [["always"], ["never"], ["value", ["Equals", 3]], ["value", ["LessThan", 2]], ["failure_is", "ValueError"],
          ["failure_is", "KeyError"]]
-OPS = [["match", "no_result"], ["add_callback"], ["extract"], ["fire", 3], ["fail", "KeyError"]]
+OPS = [["match", "no_result"], ["add_callback"], ["add_transform"], ["extract"], ["fire", 3], ["fail", "KeyError"]]
 for s in INNER:
     if s[0] != "failure_is":
         OPS.append(["match", "succeeded", s])
@@ -354,6 +376,20 @@ def run(ctx):
                 ctx.execute("history", {"init": init, "ops": ops}, sample=(n % 1499 == 0))
     ctx.note_space("%d initial states x all legal operation sequences of length <= %d over %d operations%s"
                    % (len(INITS), maxlen, len(OPS), " (length 3: 1/6 slice)" if ctx.quick else ""), n, not ctx.quick)
+    # matched while unfired, then the chain grows (a callback changing the result), then it fires, then it is
+    # matched again: the second match sees the result as it is then
+    n = 0
+    matches = [["match", "no_result"], ["match", "succeeded", ["always"]], ["match", "failed", ["always"]],
+               ["match", "succeeded", ["value", ["Equals", 3]]], ["match", "succeeded", ["value", ["Equals", 13]]]]
+    for m1 in matches:
+        for mid in (["add_transform"], ["add_callback"], ["add_transform"]):
+            for fire in (["fire", 3], ["fail", "KeyError"], ["fail", "KeyboardInterrupt"]):
+                for m2 in matches:
+                    for init in ({"state": "unfired"}, {"state": "unfired", "callbacks_before": 2}):
+                        if ctx.mine():
+                            n += 1
+                            ctx.execute("history", {"init": init, "ops": [m1, mid, fire, m2, ["add_callback"]]})
+    ctx.note_space("match, grow the chain, fire, match again: 5 x 3 x 3 x 5 x 2 five-step histories", n)
     n = 0
     for stage in ("setUp", "test", "tearDown", "cleanup"):
         for kind in ("ok", "fail", "error", "skip", "multi"):
